@@ -77,6 +77,21 @@ def replay(path):
             if probs:
                 print("REPRODUCED: " + "; ".join(probs[:3]))
                 return 1
+            if r.get("kind") == "wellformed":
+                print("not reproduced: the derived procedure is well-formed")
+                return 0
+            if r.get("kind") == "compile_crash":
+                try:
+                    q.c_code_str()
+                except Exception as cex:  # noqa
+                    nm = type(cex).__name__
+                    if nm in ("MemGenError", "ConfigError", "TypeError", "ParallelAnalysisError"):
+                        print(f"not reproduced: compilation is refused by a documented check ({nm})")
+                        return 0
+                    print(f"REPRODUCED: compiling the derived procedure raises {nm}: {str(cex)[:200]}")
+                    return 1
+                print("not reproduced: the derived procedure compiles")
+                return 0
             print("recorded detail:", json.dumps(r.get("detail"))[:800])
             return 1
     except Exception as ex:  # noqa
